@@ -166,7 +166,7 @@ Open Scope Z_scope.
 (* ---------- the hash model satisfies the streaming contract ---------- *)
 Theorem cat_hash_contract : hash_contract fs_runtime.
 Proof.
-  split; cbn [rt_update fs_runtime]; unfold cat_update.
+  split; cbn [rt_update fs_runtime fs_runtime_lim]; unfold cat_update.
   - intros [alg d] a b. cbn [fst snd]. rewrite app_assoc. reflexivity.
   - intros [alg d]. cbn [fst snd]. rewrite app_nil_r. reflexivity.
 Qed.
@@ -178,9 +178,10 @@ Proof. split; reflexivity. Qed.
 Lemma is_file_at_nodes w w' a : fs_look a w' = fs_look a w -> is_file_at w' a = is_file_at w a.
 Proof. unfold is_file_at. intros ->. reflexivity. Qed.
 
-Theorem fs_satisfies_contract : fs_contract fs_runtime fs_key fs_look fs_fd_key fs_tmpdir.
+Theorem fs_lim_satisfies_contract (limit : Z) :
+  fs_contract (fs_runtime_lim limit) fs_key fs_look fs_fd_key fs_tmpdir limit.
 Proof.
-  split; cbn [rt_isdir rt_makedirs rt_unlink rt_mkstemp rt_write rt_close rt_open_rb fs_runtime].
+  split; cbn [rt_isdir rt_makedirs rt_unlink rt_mkstemp rt_write rt_close rt_open_rb fs_runtime_lim].
   - (* isdir_look *)
     intros p w. unfold fs_isdir. destruct (fs_look (fs_key p) w) as [[|c]|]; split; congruence.
   - (* makedirs_ok *)
@@ -255,7 +256,8 @@ Proof.
       rewrite !look_cons. cbn [fs_nodes assoc_key]. rewrite (key_eqb_neq _ _ Hne). reflexivity.
     + exists (fresh_tag w). subst name dstr. reflexivity.
   - (* write_ok *)
-    intros fd k c w Hfd Hempty Hlen. unfold fs_write. rewrite Hfd, Hempty.
+    intros fd k c w Hfd Hempty Hlen. unfold fs_write_lim. rewrite Hfd, Hempty.
+    replace (zlen c <=? limit) with true by (symmetry; apply Z.leb_le; exact Hlen). cbv zeta.
     eexists. split; [reflexivity|].
     destruct k as [|x k]; [discriminate Hempty|].
     split; [|split].
@@ -272,14 +274,17 @@ Proof.
     destruct (fs_look (fs_key p) w) as [[|c0]|]; split; intros Heq; try discriminate; congruence.
 Qed.
 
+Theorem fs_satisfies_contract : fs_contract fs_runtime fs_key fs_look fs_fd_key fs_tmpdir max_rw_count.
+Proof. exact (fs_lim_satisfies_contract max_rw_count). Qed.
+
 (* ---------- consequences for the validated model (no premises left) ---------- *)
 Theorem fs_ensure_tree_idempotent path mode w w' :
   ensure_tree fs_runtime path mode w = (w', OOk tt) -> ensure_tree fs_runtime path mode w' = (w', OOk tt).
-Proof. exact (ensure_tree_idempotent fs_runtime fs_key fs_look fs_fd_key fs_tmpdir fs_satisfies_contract path mode w w'). Qed.
+Proof. exact (ensure_tree_idempotent fs_runtime fs_key fs_look fs_fd_key fs_tmpdir max_rw_count fs_satisfies_contract path mode w w'). Qed.
 
 Theorem fs_delete_if_exists_idempotent path w w' :
   delete_if_exists path fs_unlink w = (w', OOk tt) -> delete_if_exists path fs_unlink w' = (w', OOk tt).
-Proof. exact (delete_if_exists_idempotent fs_runtime fs_key fs_look fs_fd_key fs_tmpdir fs_satisfies_contract path w w'). Qed.
+Proof. exact (delete_if_exists_idempotent fs_runtime fs_key fs_look fs_fd_key fs_tmpdir max_rw_count fs_satisfies_contract path w w'). Qed.
 
 (* ---------- concrete instances (non-vacuity of the hypotheses of the main theorems) ---------- *)
 Definition ex_world : fsw :=
@@ -321,3 +326,30 @@ Proof. repeat split; vm_compute; reflexivity. Qed.
 Theorem default_algorithm_usable :
   str_mem default_algorithm hash_algorithms = true /\ str_mem default_algorithm hash_xof = false.
 Proof. split; vm_compute; reflexivity. Qed.
+
+(* ---------- the unconditional statement about write_to_tempfile is false ----------
+   write_to_tempfile calls os.write once and ignores the number of bytes it reports.  A
+   runtime whose write(2) transfers at most [wlimit] bytes per call (every Linux: wlimit =
+   0x7ffff000) satisfies the whole contract, yet for a longer content the new file holds only
+   a prefix.  Witness: the file-system model with limit 3 and a 5-byte content (replayed on
+   the implementation with the real limit: findings/C20-W1.json). *)
+Definition write_to_tempfile_full_statement : Prop :=
+  forall (W H K : Type) (rt : runtime W H) (key : bytes -> K) (look : K -> W -> option node)
+         (fd_key : Z -> W -> option K) (tmpdir : bytes) (wlimit : Z),
+    fs_contract rt key look fd_key tmpdir wlimit ->
+    forall content path suffix prefix w w' name,
+      write_to_tempfile rt content path suffix prefix w = (w', OOk name) ->
+      look (key name) w' = Some (NFile content).
+
+Theorem write_to_tempfile_full_refuted : ~ write_to_tempfile_full_statement.
+Proof.
+  intros Hfull.
+  pose (res := write_to_tempfile (fs_runtime_lim 3) (lit "data!") None [] (lit "tmp") ex_world).
+  assert (E : res = (fst res, OOk (match snd res with OOk n => n | _ => [] end))) by (vm_compute; reflexivity).
+  specialize (Hfull fsw cat_hash fskey (fs_runtime_lim 3) fs_key fs_look fs_fd_key fs_tmpdir 3
+                    (fs_lim_satisfies_contract 3) (lit "data!") None [] (lit "tmp") ex_world _ _ E).
+  vm_compute in Hfull. discriminate Hfull.
+Qed.
+
+(* decidable zone on the input: the content does not fit one write(2) *)
+Definition zone_write_limit (content : bytes) : bool := max_rw_count <? zlen content.
